@@ -21,7 +21,15 @@ Statement-level freedom kept as freedom:
    the float remainder may come out just below the divisor (0.3 mod 0.1);
    accepted and counted.
  * "sampled binary floats": only the magnitude laws (multiple, bracket,
-   adjacency, fixed points) against the shortest-repr decimal, with tolerance.
+   adjacency, fixed points) against the shortest-repr decimal, with tolerance;
+   the ROUND family over the whole range of magnitudes 1e-300 .. 1e300 (a
+   double has at most 17 significant digits: a large number is a multiple of
+   10^-d and must come back unchanged), INT/EVEN/ODD up to 1e9.
+
+The same number reaches a worksheet function in more than one Python form: a
+cell constant (int / float), or the result of another worksheet function --
+SUM gives a float, SUMPRODUCT over arrays hands on numpy scalars.  Both paths
+draw from these forms (OPERANDS, Driver.numbers).
 """
 import decimal
 import json
@@ -121,8 +129,33 @@ def number(k, j):
     return [k, float(k)] if j == 0 else [k / P10[j]]
 
 
+def computed(x):
+    """x as a worksheet function computing it with numpy hands it on
+    (SUMPRODUCT over arrays: numpy.sum(numpy.prod(..)))"""
+    import numpy as np
+    return np.sum(np.prod(np.array(((x, 0), (1, 0))), axis=0))
+
+
+# how the first argument reaches the function in a formula; {a} {b} are the
+# cells of the row (the second one holds a number: its product with 0 is 0)
+OPERANDS = ('{a}', '{a}', 'SUM({a})', 'SUMPRODUCT({a}:{b},{1,0})')
+
+
 def binary_exact(k, j):
     return Fraction(k, P10[j]).denominator in (1, 2, 4, 8, 16, 32, 64)
+
+
+def plain(a):
+    """numpy scalar -> the Python number (for the recorded case)"""
+    return a.item() if hasattr(a, 'item') else a
+
+
+def formula_path(op):
+    return 'formula' if op == '{a}' else 'formula ' + op
+
+
+def lib_path(x):
+    return 'lib' if type(x) in (int, float) else 'lib numpy scalar'
 
 
 def show(x):
@@ -156,7 +189,7 @@ class Judge:
         self.fail(fn, path,
                   f'{fn}({", ".join(map(repr, args))}) [{path}, {cls}]: expected '
                   f'{float(want)!r}, got {show(got)}',
-                  dict(fn=fn, path=path, args=list(args), cls=cls,
+                  dict(fn=fn, path=path, args=[plain(a) for a in args], cls=cls,
                        judge='exact', want=[want.numerator, want.denominator]
                        if isinstance(want, Fraction) else [want, 1],
                        got=show(got)),
@@ -176,7 +209,7 @@ class Judge:
                   f'{"one of " if len(quarters) > 1 else ""}'
                   f'{sorted(q / den for q in quarters)}'
                   f'{" or #NUM!" if err_ok else ""}, got {show(got)}',
-                  dict(fn=fn, path=path, args=list(args), cls=cls,
+                  dict(fn=fn, path=path, args=[plain(a) for a in args], cls=cls,
                        judge='member', quarters=sorted(quarters), den=den, err_ok=err_ok,
                        got=show(got)),
                   (len(repr(args[0])), abs(args[0])))
@@ -201,7 +234,7 @@ class Judge:
         self.fail('MOD', path,
                   f'MOD({n!r}, {m!r}) [{path}, {cls}]: expected {float(want)!r} '
                   f'(sign of the divisor), got {show(got)}',
-                  dict(fn='MOD', path=path, args=[n, m], cls=cls, judge='mod',
+                  dict(fn='MOD', path=path, args=[plain(n), plain(m)], cls=cls, judge='mod',
                        want=[Fraction(want).numerator, Fraction(want).denominator],
                        strict=strict, got=show(got)),
                   (len(repr(n)) + len(repr(m)), abs(n) + abs(m)))
@@ -211,7 +244,7 @@ class Judge:
         self.v.case((fn, path) + tuple(args))
         if not ok:
             self.fail(fn, path, f'{fn}({", ".join(map(repr, args))}) [{path}, {cls}]: {text}',
-                      dict(fn=fn, path=path, args=list(args), cls=cls, judge='law',
+                      dict(fn=fn, path=path, args=[plain(a) for a in args], cls=cls, judge='law',
                            law=text), (len(repr(args[0])), abs(args[0])))
         return ok
 
@@ -294,6 +327,17 @@ class Driver:
             if i < q:
                 slot[1][i] = vec
 
+    def numbers(self, k, j):
+        """Python forms of x = k/10^j for the library path; one vector in
+        four also as the numpy scalar a computing function hands on"""
+        xs = number(k, j)
+        if self.rnd.random() < 0.25:
+            xs = xs + [computed(xs[-1])]
+        return xs
+
+    def operand(self):
+        return self.rnd.choice(OPERANDS)
+
     def vector(self, vec):
         key = (vec['ph'], vec['cls'])
         self.cls_count[key] = self.cls_count.get(key, 0) + 1
@@ -308,51 +352,59 @@ class Driver:
     def lib_R(self, vec):
         k, j, d, cls = vec['k'], vec['j'], vec['d'], vec['cls']
         exp = self.expected_R(vec)
-        for x in number(k, j):
+        for x in self.numbers(k, j):
             for fn, want in exp:
-                self.J.exact(fn, 'lib', (x, d), call(self.F[fn], x, d), want, cls)
+                self.J.exact(fn, lib_path(x), (x, d), call(self.F[fn], x, d), want, cls)
             if d == 0:      # num_digits omitted
-                self.J.exact('ROUND', 'lib', (x,), call(self.F['ROUND'], x), exp[0][1], cls)
-                self.J.exact('TRUNC', 'lib', (x,), call(self.F['TRUNC'], x), exp[3][1], cls)
+                self.J.exact('ROUND', lib_path(x), (x,), call(self.F['ROUND'], x), exp[0][1], cls)
+                self.J.exact('TRUNC', lib_path(x), (x,), call(self.F['TRUNC'], x), exp[3][1], cls)
         if (k, j) not in self.one_arg_seen:
             self.one_arg_seen.add((k, j))
-            for x in number(k, j):
+            for x in self.numbers(k, j):
                 for fn in ('INT', 'EVEN', 'ODD'):
-                    self.J.exact(fn, 'lib', (x,), call(self.F[fn], x),
+                    self.J.exact(fn, lib_path(x), (x,), call(self.F[fn], x),
                                  vec[fn.lower()], cls)
 
     def formulas_R(self, vecs):
-        fs = ['ROUND({a},{b})', 'ROUNDUP({a},{b})', 'ROUNDDOWN({a},{b})',
-              'TRUNC({a},{b})', 'INT({a})', 'EVEN({a})', 'ODD({a})']
-        rows = [(number(v['k'], v['j'])[-1] if self.rnd.random() < 0.5
-                 else number(v['k'], v['j'])[0], v['d'], fs) for v in vecs]
-        for vec, (x, d, _), res in zip(vecs, rows, eval_formulas(rows)):
+        fs = ['ROUND({x},{b})', 'ROUNDUP({x},{b})', 'ROUNDDOWN({x},{b})',
+              'TRUNC({x},{b})', 'INT({x})', 'EVEN({x})', 'ODD({x})']
+        rows, ops = [], []
+        for v in vecs:
+            ops.append(self.operand())
+            rows.append((number(v['k'], v['j'])[-1] if self.rnd.random() < 0.5
+                         else number(v['k'], v['j'])[0], v['d'],
+                         [f.replace('{x}', ops[-1]) for f in fs]))
+        for vec, op, (x, d, _), res in zip(vecs, ops, rows, eval_formulas(rows)):
             exp = self.expected_R(vec)
+            path = formula_path(op)
             for (fn, want), got in zip(exp, res):
-                self.J.exact(fn, 'formula', (x, d), got, want, vec['cls'])
+                self.J.exact(fn, path, (x, d), got, want, vec['cls'])
             for fn, got in zip(('INT', 'EVEN', 'ODD'), res[4:]):
-                self.J.exact(fn, 'formula', (x,), got, vec[fn.lower()], vec['cls'])
+                self.J.exact(fn, path, (x,), got, vec[fn.lower()], vec['cls'])
 
     # -- MOD ----------------------------------------------------------------
     def lib_M(self, vec):
         k, j, p, cls = vec['k'], vec['j'], vec['m'], vec['cls']
         strict = binary_exact(k, j) and binary_exact(p, j)
         want = Fraction(vec['mod'], P10[j])
-        for n in number(k, j):
+        for n in self.numbers(k, j):
             for m in number(p, j):
-                self.J.mod('lib', (n, m), call(self.F['MOD'], n, m), want, strict, cls)
+                self.J.mod(lib_path(n), (n, m), call(self.F['MOD'], n, m), want, strict, cls)
 
     def formulas_M(self, vecs):
-        rows = []
+        rows, ops = [], []
         for v in vecs:
             strict = binary_exact(v['k'], v['j']) and binary_exact(v['m'], v['j'])
-            fs = ['MOD({a},{b})']
+            op = self.operand()
+            ops.append(op)
+            fs = ['MOD({x},{b})']
             if strict:    # the identity n = m*INT(n/m) + MOD(n, m), and INT(n/m)
-                fs += ['{b}*INT({a}/{b})+MOD({a},{b})', 'INT({a}/{b})']
-            rows.append((number(v['k'], v['j'])[0], number(v['m'], v['j'])[0], fs))
-        for vec, (n, m, fs), res in zip(vecs, rows, eval_formulas(rows)):
+                fs += ['{b}*INT({x}/{b})+MOD({x},{b})', 'INT({x}/{b})']
+            rows.append((number(v['k'], v['j'])[0], number(v['m'], v['j'])[0],
+                         [f.replace('{x}', op) for f in fs]))
+        for vec, op, (n, m, fs), res in zip(vecs, ops, rows, eval_formulas(rows)):
             strict = len(fs) == 3
-            self.J.mod('formula', (n, m), res[0],
+            self.J.mod(formula_path(op), (n, m), res[0],
                        Fraction(vec['mod'], P10[vec['j']]), strict, vec['cls'])
             if strict:
                 self.J.exact('m*INT(n/m)+MOD(n,m)', 'formula', (n, m), res[1],
@@ -364,15 +416,15 @@ class Driver:
         k, j, s4, cls = vec['k'], vec['j'], vec['s4'], vec['cls']
         den = vec.get('den', 4)
         sig = s4 // den if s4 % den == 0 else s4 / den
-        for x in number(k, j):
+        for x in self.numbers(k, j):
             for i, (name, attr, xname, extra) in enumerate(VARIANTS):
                 got = call(self.F[xname], x, sig, *extra)
-                self.J.member(name, 'lib', (x, sig) + extra, got,
+                self.J.member(name, lib_path(x), (x, sig) + extra, got,
                               vec['allow'][i], vec['err'][i], cls, den)
                 self.doc_check(vec, i, got)
                 if sig == 1 and not extra and name not in ('CEILING', 'FLOOR'):
                     # significance omitted
-                    self.J.member(name, 'lib', (x,), call(self.F[xname], x),
+                    self.J.member(name, lib_path(x), (x,), call(self.F[xname], x),
                                   vec['allow'][i], vec['err'][i], cls, den)
 
     def doc_check(self, vec, i, got):
@@ -387,16 +439,18 @@ class Driver:
                             '(allowed by the statement-level relation, not judged)')
 
     def formulas_C(self, vecs):
-        rows = []
+        rows, ops = [], []
         for v in vecs:
             s4, den = v['s4'], v.get('den', 4)
-            fs = [f'{xname}({{a}},{{b}}{"".join("," + str(e) for e in extra)})'
+            op = self.operand()
+            ops.append(op)
+            fs = [f'{xname}({op},{{b}}{"".join("," + str(e) for e in extra)})'
                   for name, attr, xname, extra in VARIANTS]
             rows.append((number(v['k'], v['j'])[0],
                          s4 // den if s4 % den == 0 else s4 / den, fs))
-        for vec, (x, sig, _), res in zip(vecs, rows, eval_formulas(rows)):
+        for vec, op, (x, sig, _), res in zip(vecs, ops, rows, eval_formulas(rows)):
             for i, got in enumerate(res):
-                self.J.member(VARIANTS[i][0], 'formula', (x, sig) + VARIANTS[i][3],
+                self.J.member(VARIANTS[i][0], formula_path(op), (x, sig) + VARIANTS[i][3],
                               got, vec['allow'][i], vec['err'][i], vec['cls'], vec.get('den', 4))
                 self.doc_check(vec, i, got)
 
@@ -413,7 +467,7 @@ class Driver:
 # ------------------------------------------------------- sampled binary floats
 def float_samples(rnd, n):
     for i in range(n):
-        kind = i % 6
+        kind = i % 8
         if kind == 0:
             yield rnd.uniform(-1e6, 1e6)
         elif kind == 1:      # decimal * power of ten: 0.29 * 100 = 28.999999999999996
@@ -425,21 +479,24 @@ def float_samples(rnd, n):
             yield math.ldexp(rnd.random() * rnd.choice((-1, 1)), rnd.randrange(-20, 31))
         elif kind == 4:      # thirds, sevenths
             yield rnd.randrange(-10 ** 6, 10 ** 6) / rnd.choice((3, 7, 9, 11))
-        else:                # one ulp around a tie or a multiple
+        elif kind == 5:      # one ulp around a tie or a multiple
             base = (2 * rnd.randrange(-5000, 5000) + rnd.choice((0, 1))) / 2 / P10[rnd.randrange(0, 4)]
             yield math.nextafter(base, rnd.choice((-math.inf, math.inf)))
+        elif kind == 6:      # the whole range of a double: random mantissa, 2^-996 .. 2^996
+            yield math.ldexp(rnd.uniform(0.5, 1) * rnd.choice((-1, 1)), rnd.randrange(-995, 997))
+        else:                # few significant digits at any magnitude: 1E+22, -2.5E-40, 123E+200
+            yield float(f'{rnd.randrange(-999, 1000)}E{rnd.randrange(-300, 298)}')
 
 
 def float_laws(J, F, rnd, n):
     """Magnitude laws only, judged against the shortest decimal rendering."""
-    ctx = decimal.Context(prec=60)
     for x in float_samples(rnd, n):
-        if not 1e-9 <= abs(x) <= 1e9:     # no subnormals (EVEN(5e-324): x/2 = 0), no overflow
+        if not 1e-300 <= abs(x) <= 1e300:     # no subnormals, no overflow of a result
             continue
         d = rnd.randrange(-6, 7)
-        D = ctx.create_decimal(repr(x))
-        unit = ctx.power(decimal.Decimal(10), -d)
-        is_mult = ctx.remainder(D, unit) == 0
+        D = Fraction(decimal.Decimal(repr(x)))        # the shortest decimal rendering, exact
+        unit = Fraction(10) ** -d
+        is_mult = (D / unit).denominator == 1
         r, up, dn, tr = (call(F[fn], x, d) for fn in ('ROUND', 'ROUNDUP', 'ROUNDDOWN', 'TRUNC'))
         args = (x, d)
         if not J.law('ROUND*', 'lib', args, all(map(is_num, (r, up, dn, tr))),
@@ -448,9 +505,9 @@ def float_laws(J, F, rnd, n):
         u = float(unit)
         slack = TOL * max(abs(x), u)
         for fn, g in (('ROUND', r), ('ROUNDUP', up), ('ROUNDDOWN', dn)):
-            q = ctx.divide(ctx.create_decimal(repr(float(g))), unit)
-            off = abs(q - q.to_integral_value(context=ctx))
-            J.law(fn, 'lib', args, off <= decimal.Decimal(TOL) * max(1, abs(q)),
+            q = Fraction(decimal.Decimal(repr(float(g)))) / unit
+            off = abs(q - round(q))
+            J.law(fn, 'lib', args, off <= Fraction(TOL) * max(1, abs(q)),
                   f'{g!r} is not a multiple of 10^{-d}')
         J.law('TRUNC', 'lib', args, tr == dn, f'TRUNC {tr!r} differs from ROUNDDOWN {dn!r}')
         J.law('ROUNDDOWN', 'lib', args, abs(dn) <= abs(x) + slack and (dn == 0 or (dn > 0) == (x > 0)),
@@ -464,7 +521,11 @@ def float_laws(J, F, rnd, n):
         if is_mult:
             J.law('ROUND*', 'lib', args, all(abs(g - x) <= slack for g in (r, up, dn)),
                   f'exact multiple not fixed: {r!r}, {up!r}, {dn!r}')
-        # INT is floor; EVEN/ODD parity and side
+        # INT is floor; EVEN/ODD parity and side.  Beyond 2^53 every double is
+        # an even integer ("the next odd integer" is not a double), and a tiny
+        # x halves to a subnormal (EVEN(5e-324): x/2 = 0): 1e-9 .. 1e9 only
+        if not 1e-9 <= abs(x) <= 1e9:
+            continue
         X = Fraction(x)
         i, ev, od = (call(F[fn], x) for fn in ('INT', 'EVEN', 'ODD'))
         J.law('INT', 'lib', (x,), is_num(i) and i == math.floor(X), f'{show(i)} is not floor')
@@ -533,7 +594,8 @@ def run(tier, seed):
                     config='Rounding_mc.cfg' if quick else
                     'Rounding_big.cfg partitioned by (phase, j), seed-dependent grid offsets'),
         vectors=nvec, vectors_by_class={f'{p}:{c}': n for (p, c), n in sorted(drv.cls_count.items())},
-        formula_rows=nform, sampled_floats=nfloat,
+        formula_rows=nform, sampled_floats=nfloat, float_magnitudes='ROUND family 1e-300..1e300, INT/EVEN/ODD 1e-9..1e9',
+        operand_forms=list(OPERANDS) + ['library path: int, float, numpy scalar (1 vector in 4)'],
         coverage_actions=coverage,
         discrepancies_by_function=by_fn,
         mod_float_wraps_accepted=J.mod_wraps,
@@ -563,9 +625,13 @@ def replay(path):
     if base not in F:
         print('  (composite formula or law; see the description)')
         return 1
-    lib = call(F[base], *args)
+    path = case.get('path', '')
+    lib = call(F[base], *([computed(args[0])] + args[1:] if 'numpy' in path else args))
     cells = {f'{c}1': a for c, a in zip('ABC', args)}
-    form = call(xl.evalf, f'={base}({",".join(c + "1" for c, _ in zip("ABC", args))})', cells)
+    cells.setdefault('B1', 1)
+    first = path[len('formula '):].replace('{a}', 'A1').replace('{b}', 'B1') \
+        if path.startswith('formula ') else 'A1'
+    form = call(xl.evalf, f'={base}({",".join([first] + [c + "1" for c, _ in zip("BC", args[1:])])})', cells)
     print(f'  now: library {show(lib)}, formula {show(form)}')
     ok = True
     for got in (lib, form):
